@@ -376,5 +376,5 @@ MANIFEST_ENTRY = {
     "either the FCFS value or the verified fill; no property is called, nothing is raised, nothing is read from an unsolved model. "
     "Holds for all inputs because it is a statement about all paths of the code, not about sampled runs.",
     "note": "Trusted: CPython ast; PuLP fault model (solve raises PulpSolverError or leaves a non-optimal status); FCFS/fill losslessness is C01's obligation (re-run here). Not decided: other exception types thrown by a back-end; more than 30 levels.",
-    "technique": "static analysis: attribute-kind resolution + dominating-guard (path condition) analysis + handler coverage over the ast",
+    "technique": "static analysis: attribute-kind resolution + truth table over the finite classes of solver configuration and outcome (no solver, no back-end installed, PulpSolverError, status Not Solved / Infeasible / Unbounded / Undefined, Optimal; HiGHS available or not) - the fragment is interpreted from the ast against a PuLP API model, every statement of it must be reached; fallback: dominating-guard (path condition) analysis + handler coverage over the ast",
 }
